@@ -116,8 +116,9 @@ class CallMixin:
             eng.used_assumed.add(name)
             if name in eng.reg.pure_calls and (isinstance(ret, z3.SortRef) or (isinstance(ret, str) and ret in ('opaque', 'nonnull'))) and not kwargs:
                 # assumed pure: an uninterpreted function of its arguments (same arguments, same result), never raises
-                targs = [eng.as_obj(a) for a in args if not isinstance(a, VObj)]
-                f = z3.Function('assumed:' + name, *[t.sort() for t in targs], ret if isinstance(ret, z3.SortRef) else Obj)
+                targs = [eng.as_obj(a) for a in args]
+                fname = 'assumed:' + name + ('' if len(targs) == 1 else f'/{len(targs)}')
+                f = z3.Function(fname, *[t.sort() for t in targs], ret if isinstance(ret, z3.SortRef) else Obj)
                 r = lift(f(*targs))
                 if isinstance(ret, str) and ret == 'nonnull':
                     r.nonnull = True
